@@ -1,0 +1,25 @@
+//go:build verif
+
+package snowflake
+
+import "time"
+
+// Verification hooks (build tag verif only): clock and layout injection.  The package keeps its
+// layout in globals that Setup can only move forward from the current values, and the clock of
+// HardNode in the unexported _HookNow; both need to be set and restored from outside the package.
+
+// VerifSetNow replaces the clock read by HardNode.Generate and returns a function restoring the
+// previous one.
+func VerifSetNow(f func() time.Time) (restore func()) {
+	var old = _HookNow
+	_HookNow = f
+	return func() { _HookNow = old }
+}
+
+// VerifSetConfig sets the global layout (epoch in unix milliseconds, node width, node placement)
+// and returns a function restoring the previous layout.
+func VerifSetConfig(epoch int64, nodeBits uint8, nodeAtLowest bool) (restore func()) {
+	var oe, ob, ol = _epoch, _nodeBits, _nodeAtLowest
+	_epoch, _nodeBits, _nodeAtLowest = epoch, nodeBits, nodeAtLowest
+	return func() { _epoch, _nodeBits, _nodeAtLowest = oe, ob, ol }
+}
